@@ -5,7 +5,10 @@ character the statement splitter treats as an escape introducer inside a string 
 writer; (R3) the splitter's comment skipping and (R4) its line handling are not applied inside
 string literals; (R5) every typed-literal keyword the writer emits has an arm in the parser's
 literal parser; (R6) the signed numeric form the writer emits is a form the INSERT VALUES
-evaluator accepts.  Does NOT decide that INSERT coercion reproduces the exact value."""
+evaluator accepts; (R7) the writer emits the string payload itself (only quote doubling applied); (R8) the
+splitter leaves string mode only on the quote character that opened the string; (R9) the parser tries the exact
+i64 reading of every numeric token before it falls back to f64.
+Does NOT decide that INSERT coercion reproduces the exact value."""
 from ..engine.facts import callee_name
 from ..engine.cfg import cfg, op_const, op_local, op_place, defs_of, resolve_const, str_const
 from ..engine.tables import enum_switches, switch_arm_regions
@@ -207,3 +210,80 @@ def run(ctx):
     if signed and 'UnaryOp' not in earms:
         ctx.finding('R6/negative-number', 'the dump writer emits negative numbers as -N but the INSERT VALUES evaluator has no arm for unary '
                     'minus: a dump containing a negative number cannot be loaded', ev.loc)
+
+
+    # ---------------------------------------------------------------- R7 payload written unchanged
+    from ..engine.symexpr import Sym
+    from . import shared
+    import re
+    ctx.rule('C19.R7', 'sql_value_to_literal: the text placed between the quotes is replace(<payload>, quote, two quotes) of the '
+             'Varchar/Character payload itself — no trimming, case change or other transformation')
+    ws = Sym(w)
+    for v in ('Varchar', 'Character'):
+        shapes = []
+        for i, t in w.calls():
+            if i in regs.get(v, ()) and ((callee_name(t) or '').endswith('::replace') or '::replace<' in (callee_name(t) or '')):
+                shapes.append(ws.op(t['args'][0]))
+        ctx.instance(f'R7/{v}', {'rule': 'C19.R7', 'variant': v, 'replace_applied_to': shapes})
+        for e in shapes:
+            if not re.fullmatch(r'[A-Za-z_0-9]+@(Varchar|Character)\.0|phi\([A-Za-z_0-9]+@(Varchar|Character)\.0 \| [A-Za-z_0-9]+@(Varchar|Character)\.0\)', e):
+                ctx.finding(f'R7/{v}/transformed', f'sql_value_to_literal writes `{e[:80]}` for {v} values instead of the stored text itself: what is '
+                            'loaded back differs from what was saved', w.loc)
+
+    # ---------------------------------------------------------------- R8 closing quote = opening quote
+    ctx.rule('C19.R8', 'parse_sql_statements: every transition that leaves string mode is decided by a comparison of the current character '
+             'with the variable that was assigned the opening quote when string mode was entered')
+    ssym = Sym(sp)
+    string_flags = []
+    for fl, d in flags.items():
+        # the string-mode flag is the one whose entering transition also remembers a character
+        if any('d' in st and not st['d'][1] and st['d'][0] != fl and st['d'][0] in sp.names and sp.locals[st['d'][0]] == 'char'
+               for tb in d['true_blocks'] for st in sp.blocks[tb]['s']):
+            string_flags.append(fl)
+    ctx.require(string_flags, 'parse_sql_statements: string-mode flag not recognised')
+    for fl in string_flags:
+        d = flags[fl]
+        # locals assigned in the blocks that enter string mode
+        openers = set()
+        for tb in d['true_blocks']:
+            for st in sp.blocks[tb]['s']:
+                if 'd' in st and not st['d'][1] and st['d'][0] != fl and st['d'][0] in sp.names and sp.locals[st['d'][0]] == 'char':
+                    openers.add(st['d'][0])
+        enc_ = __import__('vsa.engine.linear', fromlist=['Encoder']).Encoder(prog, sp)
+        inner = [b for b in d['false_blocks'] if any(b in shared._body(enc_, h) for h in lh)]
+        ctx.instance(f'R8/{sp.names.get(fl)}', {'rule': 'C19.R8', 'opening_quote_variables': sorted(sp.names[o] for o in openers), 'closing_transitions': len(inner)})
+        ctx.require(openers, 'parse_sql_statements: variable remembering the opening quote not recognised')
+        sdefs_ = defs_of(sp)
+        for b in inner:
+            ok = False
+            for sblk in shared.deciding_switches(sp, b):
+                on = op_place(sp.blocks[sblk]['t']['on'])
+                for st in sp.blocks[sblk]['s']:
+                    if 'd' in st and on and st['d'][0] == on[0] and st['v']['r'] == 'bin' and st['v']['op'] == 'Eq':
+                        roots = {shared.named_root(sp, sdefs_, st['v'][k])[0] for k in ('a', 'b')}
+                        if roots & openers:
+                            ok = True
+            if not ok:
+                ctx.finding('R8/closing-quote', 'the statement splitter leaves string mode on a character that is not compared with the quote that '
+                            'opened the string: a value containing the other quote character (6" nail; ...) ends the literal early and the '
+                            'statement is cut at the next semicolon', sp.loc)
+
+    # ---------------------------------------------------------------- R9 exact integer reading first
+    ctx.rule('C19.R9', 'Parser::parse_literal: the f64 reading of a numeric token is reached only after the i64 reading of the same token was '
+             'tried (the i64 parse dominates the f64 parse)')
+    plf = pl
+    from ..engine.cfg import cfg as _cfg
+    gpl = _cfg(plf)
+    def parses(ty):
+        out = []
+        for i, t in plf.calls():
+            cn = callee_name(t) or ''
+            if re.search(r'::parse(<|$)', cn) and re.search(r'\b' + ty + r'\b', cn + ' ' + str(t['f'].get('ga') or '')):
+                out.append(i)
+        return out
+    pi, pf = parses('i64'), parses('f64')
+    ctx.instance('R9/parse_literal', {'rule': 'C19.R9', 'i64_parses': len(pi), 'f64_parses': len(pf)})
+    ctx.require(pf, 'parse_literal: f64 parse not found')
+    if not pi or not all(any(gpl.dominates(a, b) for a in pi) for b in pf):
+        ctx.finding('R9/f64-without-i64', 'parse_literal sends some numeric tokens to the f64 reading without first trying the exact i64 reading: '
+                    'integers beyond 2^53 written by the dump come back rounded', plf.loc)
